@@ -317,11 +317,15 @@ def run_one(tape, cfg):
         op = tape.weighted([(3, "compute"), (2, "persist"), (2, "optimize")], "op")
         traverse = not tape.chance(1, 4, "traverse_off")
         optimize_graph = not tape.chance(1, 3, "noopt")
+        fuse_delayed = tape.chance(1, 4, "fuse_delayed")      # config optimization.fuse.delayed
+    if fuse_delayed:
+        out.probe("config_fuse_delayed")
     if any(d[:2] in (["struct", 6], ["struct", 12]) for d in g.desc):
         op = "compute"   # persist/optimize would consume an iterator before the follow-up compute
     if any(d[:2] == ["struct", 12] for d in g.desc):
         out.probe("generator_of_temporary_records")
-    wl = {"desc": g.desc, "nargs": nargs, "op": op, "traverse": traverse, "optimize_graph": optimize_graph}
+    wl = {"desc": g.desc, "nargs": nargs, "op": op, "traverse": traverse, "optimize_graph": optimize_graph,
+          "fuse_delayed": fuse_delayed}
     out.decoded = wl
     g.ncoll = sum(g.count(a) for a in args)      # what is really inside the arguments
     if g.ncoll == 0:
@@ -356,6 +360,7 @@ def run_one(tape, cfg):
         digests.append(r.sim.digest())
         return v
 
+    cfgctx = dask.config.set({"optimization.fuse.delayed": True}) if fuse_delayed else None
     try:
         if op == "compute":
             if has_iter and True:
@@ -433,6 +438,9 @@ def run_one(tape, cfg):
             raise
         out.violate("raised", f"{op}: {type(e).__name__} at {exc_site(e)}: {e} ({wl})",
                     exc_type=type(e).__name__, op=op)
+    finally:
+        if cfgctx is not None:
+            cfgctx.__exit__(None, None, None)
     out.digest = dg(digests)
     out.abstract = tuple((op, r.entry) for r in runs) or ((op, "sync"),)
     mo = max([r.sim.max_open for r in runs] or [0])
